@@ -30,6 +30,19 @@ Theorem C24_no_panic_echo : forall args, echo_builtin args <> BPanic /\ echo_bui
 Proof. exact echo_builtin_ok. Qed.
 Print Assumptions C24_no_panic_echo.
 
+(* echo [-n] [-e] [-E] ...: for ALL argument lists inside the Spec's domain (option words exactly -n/-e/-E, the
+   last of -e/-E wins; under -e every escape \a \b \e \E \f \n \r \t \v \\ \0NNN \xHH \uHHHH \UHHHHHHHH (scalar
+   values), unknown escapes and a trailing backslash; NOT \c, \' \" \?, \NNN without the zero) the builtin writes
+   the Spec's bytes with the Spec's status *)
+Theorem C24_echo_matches : forall args out st, spec_echo args = Some (out, st) -> echo_builtin args = BOut out st.
+Proof. exact echo_matches. Qed.
+Print Assumptions C24_echo_matches.
+
+(* a %b argument (and Format("%b", [arg])): same escapes plus \NNN *)
+Theorem C24_percent_b_matches : forall arg o, spec_b MPercentB arg = Some o -> format [PCT; 98] (Some [arg]) = FOk o 1.
+Proof. exact (fun arg o H => format_pct_b arg o (format_b_spec MPercentB arg o eq_refl H)). Qed.
+Print Assumptions C24_percent_b_matches.
+
 (* ---- refuted: the full statement fails on these inputs.  w_<class> is the argv, the literal bytes and status
    are what real bash 5.2 writes (the harness re-runs every witness against bash on every run); the Spec is
    undefined (None) on each of them, i.e. they are outside the scope of C24_format_matches. *)
